@@ -9,7 +9,8 @@ def main():
     vf.build("hooks")
     c.model("Abi.tla", "AbiSmall.cfg" if c.thorough else "AbiSmallQuick.cfg")
     abidiff = vf.tool("hooks", "abidiff")
-    cases = campaign.gen_pairs(c, 2000 if c.thorough else 200, MutCats='{"harmless"}', MinMuts=1, MaxMuts=1)
+    cases = campaign.gen_pairs(c, 2000 if c.thorough else 160, MutCats='{"harmless"}', MinMuts=1, MaxMuts=1)
+    cases += campaign.gen_pairs(c, 1500 if c.thorough else 120, name="gencxx", Lang='"cxx"', MutCats='{"harmless"}', MinMuts=1, MaxMuts=1)
     comps = ["gcc", "clang", "gcc-dwarf4"] if c.thorough else ["gcc", "clang"]
 
     def one(job):
